@@ -133,5 +133,31 @@ theorem unbonding_part_never_fails (v : ValId) (f : Dec) (hf0 : 0 ≤ f) (hf1 : 
     (hs : QSorted w) (hn : NonnegQ w) (hc : Cover w) : ∃ w', slashUndelegations v f w = (.ok (), w') :=
   slashUndelegations_ok v f hf0 hf1 w hs hn hc
 
+
+/-- a state whose asset share total (25) is below the validators' sum (26 + 4), with a pending redelegation out of validator 0 -/
+def wNeg : World :=
+  { (default : World) with
+    time := 100,
+    assets := [(1, { (default : Asset) with denom := 1, weight := one, wmin := 0, wmax := 2 * one, totalTokens := 30, totalValShares := 25 * one, startTime := 1000, changeRate := one, isInit := true })],
+    vals := [(0, { hist := [], totalDelShares := [(1, 10 * one)], valShares := [(1, 26 * one)] }),
+             (1, { hist := [], totalDelShares := [(1, 10 * one)], valShares := [(1, 4 * one)] })],
+    dels := [((10, 0, 1), { del := 10, val := 0, denom := 1, shares := 10 * one, hist := [], lastClaimHeight := 0 }),
+             ((10, 1, 1), { del := 10, val := 1, denom := 1, shares := 10 * one, hist := [], lastClaimHeight := 0 })],
+    redels := [((10, 1, 1, 500), { del := 10, src := 0, dst := 1, denom := 1, amount := 3 })],
+    redelQueue := [(500, [{ del := 10, src := 0, dst := 1, denom := 1, amount := 3 }])],
+    redelIndex := [(0, 500, 1, 1, 10)],
+    bank := [((accModule, 1), 30)],
+    staking := { bondDenom := 9, unbondingTime := 50, vals := [(0, { status := 3, jailed := false, tokens := 100, delShares := 100 * one, modShares := none }), (1, { status := 3, jailed := false, tokens := 100, delShares := 100 * one, modShares := none })] },
+    params := { rewardDelay := 0, takeRateInterval := 1, lastTakeRateClaim := 0 } }
+
+/-- the slash callback panics when the asset's share total (25), already below the validators' sum (26 + 4) by D13's drift,
+    goes NEGATIVE as a total slash takes the validator's own 26 shares off it: the conversion for the redelegation destination
+    that follows builds a negative coin (known finding D22 `negative_share_total`); the partial state keeps the negative total -/
+theorem callback_panics_when_the_share_total_goes_negative :
+    (step (.slash 0 one) wNeg).1.toBool = false ∧
+    (getAsset (step (.slash 0 one) wNeg).2 1).map (·.totalValShares) = some (-one) ∧
+    (step (.slash 0 one) wNeg).2.flag = false := by
+  refine ⟨by decide +kernel, by decide +kernel, by decide +kernel⟩
+
 end C08
 end Alliance
